@@ -487,54 +487,59 @@ class ParserModel:
 
 # --------------------------------------------------------------------------------------------------
 def grammar_language(grammar, token_class, start, max_len):
-    """all sentences of length <= max_len (tuples of token class names), by a length-bounded fixpoint."""
-    lang = {nt: set() for nt in grammar}
+    """all sentences of length <= max_len (tuples of token class names): memoised top-down expansion.  The documented
+    grammar is LL(1) without left recursion, so the recursion is well-founded once the length budget is threaded through."""
+    memo = {}
+    active = set()
 
-    def item_lang(sym, kind):
-        base = lang[sym] if sym in grammar else {(token_class[sym],)}
-        if kind == '1':
-            return base
-        if kind == '?':
-            return base | {()}
-        # * and +: closure up to max_len
-        res = {()} if kind == '*' else set()
-        frontier = {()}
-        while frontier:
-            new = set()
-            for a in frontier:
-                for b in base:
-                    if not b:
-                        continue
-                    c = a + b
-                    if len(c) <= max_len and c not in res:
-                        new.add(c)
-            res |= new
-            frontier = new
-        if kind == '+':
-            res |= set()      # at least one (non-empty base elements already required)
-        return res
-
-    changed = True
-    while changed:
-        changed = False
-        for nt, alts in grammar.items():
-            for alt in alts:
-                cur = {()}
-                for sym, kind in alt:
-                    il = item_lang(sym, kind)
-                    nxt = set()
-                    for a in cur:
-                        for b in il:
-                            c = a + b
-                            if len(c) <= max_len:
-                                nxt.add(c)
-                    cur = nxt
-                    if not cur:
-                        break
-                if not cur <= lang[nt]:
-                    lang[nt] |= cur
-                    changed = True
-    return lang[start]
+    def lang(sym, n):
+        if n < 0:
+            return frozenset()
+        if sym not in grammar:
+            return frozenset({(token_class[sym],)}) if n >= 1 else frozenset()
+        k = (sym, n)
+        if k in memo:
+            return memo[k]
+        if k in active:
+            raise AnalysisError('grammar transcription is left-recursive at %s' % sym)
+        active.add(k)
+        out = set()
+        for alt in grammar[sym]:
+            cur = {()}
+            for s2, kind in alt:
+                nxt = set()
+                for a in cur:
+                    room = n - len(a)
+                    if kind in ('1', '?'):
+                        if kind == '?':
+                            nxt.add(a)
+                        for b in lang(s2, room):
+                            nxt.add(a + b)
+                    else:
+                        # * / + : repeat non-empty expansions while room is left
+                        reps = {()} if kind == '*' else set()
+                        frontier = {()}
+                        first = True
+                        while frontier:
+                            new = set()
+                            for r in frontier:
+                                for b in lang(s2, room - len(r)):
+                                    if b:
+                                        c = r + b
+                                        if c not in reps:
+                                            new.add(c)
+                            reps |= new
+                            frontier = new
+                        for r in reps:
+                            nxt.add(a + r)
+                cur = nxt
+                if not cur:
+                    break
+            out |= cur
+        active.discard(k)
+        memo[k] = frozenset(out)
+        return memo[k]
+    return set(lang(start, max_len))
 
 
 def r_parser_grammar(ctx, repo, max_len=7):
